@@ -76,12 +76,63 @@ Theorem C12_masked_cells_same_vertices : forall (m : list bool) (vs : list Z) (c
 Proof. exact (@masked_cell_same_vertices Z). Qed.
 Print Assumptions C12_masked_cells_same_vertices.
 
-(* The cell_mask keyword (CellObject.copy; [CCells] / [CBoth] in the model): the selected cells, and the values of CELL data
-   reduced by it, keep their content at their rank among the selected ones. *)
-Theorem C12_cell_mask_cells : forall (cm : list bool) (cs : list (list nat)) i,
-  nth_error cm i = Some true -> nth_error (compress cm cs) (rank cm i) = nth_error cs i.
-Proof. exact (@masked_vertices (list nat)). Qed.
-Print Assumptions C12_cell_mask_cells.
+(* The cell_mask keyword of CellObject.copy, stated on the model's copy step ([masked_payload] = what the constructor of the copy
+   receives, [child_cmask] = the mask each child copy receives; [C12_copy_iso_masked] ties both to the copied tree).
+   [has_cells p]: p is an object of a class with cells (curves, surfaces, the curve-based surveys).
+   Cell mask alone ([CCells]): every vertex, exactly the selected cells, and a cell mask of another length is refused. *)
+Theorem C12_cell_mask_alone : forall cx p p' cm,
+  cmk cx = CCells cm -> has_cells p -> masked_payload cx p = Ok p' ->
+  length cm = length (cells p) /\ verts p' = verts p /\ cells p' = compress cm (cells p) /\ vals p' = vals p.
+Proof. exact cells_mask_payload. Qed.
+Print Assumptions C12_cell_mask_alone.
+
+(* Vertex mask and cell mask together ([CBoth]): the kept vertices and the SELECTED cells (not the derived "all vertices kept"
+   ones) re-indexed over the kept vertices; both shapes are checked ... *)
+Theorem C12_cell_and_vertex_mask : forall cx p p' m cm,
+  cmk cx = CBoth m cm -> has_cells p -> verts p <> [] -> masked_payload cx p = Ok p' ->
+  length m = length (verts p) /\ length cm = length (cells p)
+  /\ verts p' = compress m (verts p)
+  /\ cells p' = map (map (fun v => nth v (new_ids m) 1)) (compress cm (cells p)) /\ vals p' = vals p.
+Proof. exact both_mask_payload. Qed.
+Print Assumptions C12_cell_and_vertex_mask.
+
+(* ... and every selected cell whose vertices are all kept is a cell of the copy joining the same vertex tokens. *)
+Theorem C12_cell_and_vertex_mask_same_vertices : forall cx p p' m cm c,
+  cmk cx = CBoth m cm -> has_cells p -> verts p <> [] -> masked_payload cx p = Ok p' ->
+  In c (compress cm (cells p)) -> cell_kept m c = true ->
+  In (map (fun v => nth v (new_ids m) 1) c) (cells p')
+  /\ map (nth_error (verts p')) (map (fun v => nth v (new_ids m) 1) c) = map (nth_error (verts p)) c.
+Proof. exact both_mask_cells_same_vertices. Qed.
+Print Assumptions C12_cell_and_vertex_mask_same_vertices.
+
+(* The mask each data child receives: CELL data the cell mask, VERTEX data the vertex mask (none under a cell mask alone), OBJECT
+   data none.  A GROUP forwards the vertex mask only: group.copy(cell_mask=...) leaves the cells of the objects below untouched. *)
+Theorem C12_cell_mask_children : forall cx p c,
+  has_cells p -> knd c = KData ->
+  (forall cm, cmk cx = CCells cm -> child_cmask cx p c = match asc c with ACell => CMask cm | _ => CNone end)
+  /\ (forall m cm, cmk cx = CBoth m cm ->
+        child_cmask cx p c = match asc c with AVertex => CMask m | ACell => CMask cm | AObject => CNone end).
+Proof. exact cell_mask_children. Qed.
+Print Assumptions C12_cell_mask_children.
+
+Theorem C12_group_forwards_vertex_mask_only : forall cx p c,
+  knd p = KGroup -> child_cmask cx p c = match cmk cx with CBoth m _ => CMask m | CCells _ => CNone | x => x end.
+Proof. exact group_forwards_vertex_mask. Qed.
+Print Assumptions C12_group_forwards_vertex_mask_only.
+
+(* a masked context run end to end ([copy], both keywords, other workspace): a 4-vertex, 3-segment curve with VERTEX and CELL data,
+   vertex mask [0;1;1;1], cell mask [0;1;0] -> vertices 21,22,23, the one selected segment re-indexed to (0,1), vertex values
+   2,3,4, cell value 8, source untouched; cell mask alone [1;0;1] -> all vertices, segments (0,1),(2,3), cell values 7,9; a cell mask
+   of length 2 -> IndexError *)
+Example C12_cell_mask_nonvacuous :
+  (exists w' nu r, copy w_cells false 1%N true 9%N o_both = Ok (w', nu, r)
+     /\ geom_of w' true nu = Some ([21; 22; 23]%Z, [[0; 1]], [Some [Some 2; Some 3; Some 4]%Z; Some [Some 8]%Z])
+     /\ geom_of w' false 1%N = geom_of w_cells false 1%N)
+  /\ (exists w' nu r, copy w_cells false 1%N true 9%N o_cells = Ok (w', nu, r)
+     /\ geom_of w' true nu = Some ([20; 21; 22; 23]%Z, [[0; 1]; [2; 3]], [Some [Some 1; Some 2; Some 3; Some 4]%Z; Some [Some 7; Some 9]%Z]))
+  /\ copy w_cells false 1%N true 9%N {| o_children := true; o_mask := None; o_omit_meta := false; o_over := []; o_clear := false;
+                                          o_cmask := Some [true; false] |} = Err EIndex.
+Proof. exact cell_mask_nonvacuous. Qed.
 
 Theorem C12_masked_values : forall (nd : option Z) m l i,
   length m = length l -> i < length l ->
